@@ -50,6 +50,7 @@ static void do_line(char *work, const char *orig) {
 		if (r != KSI_OK) printf("P%d", r);
 		else {
 			KSI_VerificationContext vc; KSI_PolicyVerificationResult *res = NULL;
+			memset(&vc, 0xa5, sizeof(vc));      /* a caller's context is whatever the stack held: init must define every field */
 			KSI_VerificationContext_init(&vc, ctx);
 			if (strcmp(w[3], "-")) {
 				char *c = strchr(w[3], ':'); KSI_Integer *t = NULL; KSI_DataHash *h = NULL; size_t il; unsigned char *im;
@@ -65,7 +66,7 @@ static void do_line(char *work, const char *orig) {
 				r = KSI_PublicationsFile_parse(ctx, pb, pl, &pf); free(pb);
 				if (r != KSI_OK) { printf("BAD-PUBFILE%d", r); goto done; }
 			}
-			vc.signature = sig; vc.userPublication = up; vc.extendingAllowed = atoi(w[4]); vc.userPublicationsFile = pf;
+			vc.signature = sig; vc.userPublication = up; if (atoi(w[4])) vc.extendingAllowed = 1; vc.userPublicationsFile = pf;
 			r = KSI_SignatureVerifier_verify(pol, &vc, &res);
 			if (r == KSI_OK && res != NULL) printf("V0:%d:%d", (int)res->finalResult.resultCode, (int)res->finalResult.errorCode);
 			else printf("V%d:-:-", r);
